@@ -147,9 +147,7 @@ func EInner(r *rand.Rand) Num {
 func GNum(r *rand.Rand) Num {
 	switch r.Intn(12) {
 	case 0:
-		return N([]string{"0.1", "0.2", "0.3", "2.675", "1.005", "0.125", "0.0005", "0.0025", "0.005", "0.015", "1e-3", "3.333", "123456.789", "123456.7895", "0", "1", "-0.1", "1e2", "2.5e-1", "-1E1", "1e+2", "0.045", "0.995", "9.995", "99.995", "010", "0755", "-012", "007.5", "1234567890.12", "98765432101234.5", "1e15", "4503599627370497", "-2147483648.5", "65536.005", "-1e-20",
-			// plain integers around the limits of the machine integer types (a quantity is a decimal number, not an int)
-			"9300000000000000000", "9223372036854775807", "9223372036854775808", "18446744073709551615", "18446744073709551616", "4294967296", "2147483648", "-9223372036854775809"}[r.Intn(44)])
+		return N([]string{"0.1", "0.2", "0.3", "2.675", "1.005", "0.125", "0.0005", "0.0025", "0.005", "0.015", "1e-3", "3.333", "123456.789", "123456.7895", "0", "1", "-0.1", "1e2", "2.5e-1", "-1E1", "1e+2", "0.045", "0.995", "9.995", "99.995", "010", "0755", "-012", "007.5", "1234567890.12", "98765432101234.5", "1e15", "4503599627370497", "-2147483648.5", "65536.005", "-1e-20", "4294967296", "2147483648"}[r.Intn(38)])
 	case 1:
 		return N(fmt.Sprintf("%d", r.Intn(2000)-300))
 	case 2:
@@ -168,6 +166,11 @@ func GNum(r *rand.Rand) Num {
 		return N(fmt.Sprintf("%d.%02d", r.Intn(300), r.Intn(100)))
 	}
 }
+
+// MachineLimitInts are plain integers around the limits of the 64-bit integer types (a quantity is a decimal number,
+// not an int). They are not part of the general pool: next to ordinary amounts they make every sum a catastrophic
+// cancellation, which only an oracle with an input-derived error bound can judge (C03, C04 use them).
+var MachineLimitInts = []string{"9300000000000000000", "9223372036854775807", "9223372036854775808", "18446744073709551615", "18446744073709551616", "-9223372036854775809", "9999999999999999999"}
 
 // ---------------------------------------------------------------------------
 // names
